@@ -52,6 +52,7 @@ class C01(Check):
                             'segs': [stream[:cut].hex(), stream[cut:].hex()]})
         for i in range(n):
             out.append(G.gen_valid_case(rng, big=(i % 9 == 0)))
+        out += [G.gen_record_case(rng) for _ in range(40 if tier == 'quick' else 1500)]
         out += utf8_cases(rng, 300 if tier == 'quick' else 5000)
         # the read loop and the three real read primitives: frames of exactly k * BUF_SIZE octets (and their neighbours), then silence
         B = 4096
